@@ -616,3 +616,50 @@ def rule_frontinsert(ctx: Ctx) -> None:
         ctx.fail("order.frontinsert", m, sv, "the asserts that the photonic block is already |0..0> no longer dominate _add_gates_from_str; "
                                              "its gates could land in front of a photon's emission", func="TimeReversedSolver.solve",
                  construct="solve: asserts do not dominate _add_gates_from_str")
+
+
+# --------------------------------------------------------------------------- own.hof (who may write the hall of fame)
+
+
+def rule_own_hof(ctx: Ctx) -> None:
+    """own.hof: the hall of fame is written only where it is (re)initialised with (inf, None) placeholders and in
+    RandomSearchSolver.update_hof, which inserts (score, circuit.copy()) at the score-ordered position for a score the caller just
+    computed for that circuit.  A store from anywhere else (`self.hof[0] = ...`, `self.hof.append(...)`, `self.hof = ...` in a
+    subclass) bypasses the ordering and can pair a circuit with a score that was not computed for it under this solver's metric and
+    noise setting."""
+    import glob, os
+    repo = ctx.repo
+    n = 0
+    rels = sorted(os.path.relpath(p_, repo.root) for p_ in glob.glob(os.path.join(repo.root, "graphiq", "solvers", "*.py")))
+    for rel in rels:
+        m = repo.module(rel)
+        for fn in [f for f in ast.walk(m.tree) if isinstance(f, ast.FunctionDef)]:
+            q = qualname(fn)
+            for node in ast.walk(fn):
+                store = None
+                if isinstance(node, (ast.Assign, ast.AugAssign)):
+                    tg = node.targets if isinstance(node, ast.Assign) else [node.target]
+                    for t in tg:
+                        b = t
+                        while isinstance(b, ast.Subscript):
+                            b = b.value
+                        if isinstance(b, ast.Attribute) and b.attr == "hof" and norm(b.value) == "self":
+                            store = node
+                if isinstance(node, ast.Call) and isinstance(node.func, ast.Attribute) and node.func.attr in ("append", "insert", "extend", "sort", "reverse", "remove", "clear") \
+                        and isinstance(node.func.value, ast.Attribute) and node.func.value.attr == "hof" and norm(node.func.value.value) == "self":
+                    store = node
+                if store is None:
+                    continue
+                n += 1
+                ctx.touch(m, fn)
+                init = isinstance(store, ast.Assign) and isinstance(store.targets[0], ast.Attribute) and isinstance(store.value, (ast.ListComp, ast.List)) \
+                    and "inf" in norm(store.value) and "None" in norm(store.value)
+                if (rel == SB and q.endswith(".update_hof")) or init:
+                    ctx.ok("own.hof", m, store, what=f"{q}: sanctioned hall-of-fame write")
+                else:
+                    ctx.fail("own.hof", m, store,
+                             f"{q} writes the hall of fame directly (`{short(store, 60)}`) instead of going through update_hof: the entry is not placed by "
+                             f"score, and its score need not be the one this solver's metric (with this solver's noise setting) gives for the stored "
+                             f"circuit", func=q, construct=f"{q}: hall of fame written outside update_hof")
+    if n < 3:
+        raise AnalysisError("own.hof: hall-of-fame writes not found (update_hof moved?)")
